@@ -15,8 +15,9 @@ var Alphabet = []rune{'a', 'b', 'c', 'A', 'B', 'k', 'K', '0', '1', '_', '-', ']'
 
 // SafeAlphabet leaves out the runes that only matter to the front-end.
 // (Ⱥ U+023A is two bytes long, its lower case ⱥ U+2C65 three; the Kelvin sign is three bytes long,
-// its lower case is the ASCII k)
-var SafeAlphabet = []rune{'a', 'b', 'c', 'A', 'B', 'k', '0', '1', '_', ' ', '\n', 'é', 'É', '日', '😀', 'Ⱥ', 'ⱥ', '\u212a'}
+// its lower case is the ASCII k; a percent sign and a comma - next to the blank - are what a
+// message built with a format string or joined with ", " must leave alone)
+var SafeAlphabet = []rune{'a', 'b', 'c', 'A', 'B', 'k', '0', '1', '_', ' ', '\n', 'é', 'É', '日', '😀', 'Ⱥ', 'ⱥ', '\u212a', '%', ','}
 
 // UClassPool are the Unicode classes drawn by the ordinary profiles.
 var UClassPool = []string{"L", "Lu", "Ll", "N", "Nd", "P", "Z", "S", "M", "C", "Latin", "Greek", "Han", "Cyrillic", "White_Space"}
